@@ -25,10 +25,17 @@ pub enum Step {
     Certificate(Vec<Vec<u8>>),
     /// the ServerKeyExchange, signed with the attacker's key
     KeyExchange,
+    /// a ServerKeyExchange exactly as the GENUINE server would send it for this handshake: a fresh
+    /// ephemeral share whose secret the attacker does not have, signed with the genuine server's
+    /// key over (client random, server random, parameters). This is what an on-path attacker
+    /// obtains by relaying the ClientHello to the live genuine server and copying its answer (a
+    /// signing oracle); the attacker cannot derive keys from it.
+    HonestKeyExchange,
 }
 
 pub struct ScriptedServer {
     signing: SigningKey,
+    honest: Option<SigningKey>,
     secret: Option<EphemeralSecret>,
     public: Vec<u8>,
     script: Vec<Step>,
@@ -103,6 +110,7 @@ impl ScriptedServer {
         let public = secret.public_key().to_encoded_point(false).as_bytes().to_vec();
         ScriptedServer {
             signing,
+            honest: None,
             secret: Some(secret),
             public,
             script,
@@ -118,6 +126,12 @@ impl ScriptedServer {
             client_finished_verified: false,
             final_flight: vec![],
         }
+    }
+
+    /// Gives the script access to the genuine server as a signing oracle (Step::HonestKeyExchange).
+    pub fn with_honest_key(mut self, genuine_private_key_pem: &str) -> Self {
+        self.honest = Some(SigningKey::from_pkcs8_pem(genuine_private_key_pem).expect("genuine key"));
+        self
     }
 
     fn hs(&mut self, msg_type: u8, body: &[u8]) -> Vec<u8> {
@@ -175,6 +189,24 @@ impl ScriptedServer {
                                             let mut b = BytesMut::new();
                                             CertificateMessage { certificates: chain }.encode(&mut b);
                                             flight.push(self.hs(11, &b));
+                                        }
+                                        Step::HonestKeyExchange => {
+                                            let Some(honest) = self.honest.clone() else { continue };
+                                            let eph = EphemeralSecret::random(&mut OsRng);
+                                            let public = eph.public_key().to_encoded_point(false).as_bytes().to_vec();
+                                            drop(eph); // the genuine server's secret never reaches the attacker
+                                            let mut p = vec![];
+                                            p.extend_from_slice(&self.client_random);
+                                            p.extend_from_slice(&self.server_random);
+                                            p.push(3);
+                                            p.extend_from_slice(&23u16.to_be_bytes());
+                                            p.push(public.len() as u8);
+                                            p.extend_from_slice(&public);
+                                            let sig: Signature = honest.sign(&p);
+                                            let ske = ServerKeyExchange { curve_type: 3, named_curve: 23, public_key: public, signature: sig.to_der().as_bytes().to_vec() };
+                                            let mut b = BytesMut::new();
+                                            ske.encode(&mut b);
+                                            flight.push(self.hs(12, &b));
                                         }
                                         Step::KeyExchange => {
                                             let mut p = vec![];
